@@ -63,5 +63,57 @@ theorem runMetricHistory_last (s : MetricState) (ops : List (MetricReq × ExtraA
     simp only [List.cons_append, runMetricHistory]
     exact ih _
 
+/-! ### row bookkeeping for any number of users (R9 / R14) -/
+section rows
+variable {K N : Nat}
+
+theorem tildeIdx_eq_subIdx (k : Fin K) : tildeIdx (N := N) k = subIdx (otherUsers k) := rfl
+
+theorem userOf_join' (k : Fin K) (i : Fin N) : userOf (join k i) = k := by
+  apply Fin.ext
+  have hN : 0 < N := Nat.lt_of_le_of_lt (Nat.zero_le _) i.isLt
+  show (k.val * N + i.val) / N = k.val
+  rw [Nat.mul_comm, Nat.mul_add_div hN, Nat.div_eq_of_lt i.isLt, Nat.add_zero]
+
+theorem join_userOf_within' (x : Fin (K * N)) : join (userOf x) (within x) = x := by
+  apply Fin.ext
+  show x.val / N * N + x.val % N = x.val
+  exact Nat.div_add_mod' _ _
+
+/-- a row is selected iff its user is in the list — whatever the number of users -/
+theorem mem_subIdx (users : List (Fin K)) (x : Fin (K * N)) : x ∈ subIdx users ↔ userOf x ∈ users := by
+  unfold subIdx
+  rw [List.mem_flatMap]
+  constructor
+  · rintro ⟨u, hu, hx⟩
+    rw [List.mem_map] at hx
+    obtain ⟨i, _, rfl⟩ := hx
+    rw [userOf_join']; exact hu
+  · intro h
+    refine ⟨userOf x, h, ?_⟩
+    rw [List.mem_map]
+    exact ⟨within x, List.mem_finRange _, join_userOf_within' x⟩
+
+theorem mem_otherUsers (k u : Fin K) : u ∈ otherUsers k ↔ u ≠ k := by
+  unfold otherUsers
+  rw [List.mem_filter]
+  simp [List.mem_finRange]
+
+theorem mem_tildeIdx (k : Fin K) (x : Fin (K * N)) : x ∈ tildeIdx (N := N) k ↔ userOf x ≠ k := by
+  rw [tildeIdx_eq_subIdx, mem_subIdx, mem_otherUsers]
+
+theorem length_subIdx (users : List (Fin K)) : (subIdx (N := N) users).length = users.length * N := by
+  induction users with
+  | nil => simp [subIdx]
+  | cons u us ih =>
+    have : subIdx (N := N) (u :: us) = (List.finRange N).map (join u) ++ subIdx us := by simp [subIdx]
+    rw [this, List.length_append, ih, List.length_map, List.length_finRange, List.length_cons, Nat.succ_mul]
+    omega
+
+theorem subIdx_single (k : Fin K) : subIdx (N := N) [k] = (List.finRange N).map (join k) := by
+  simp [subIdx]
+
+end rows
+
 end Pf
 end PyPhysim.BD
